@@ -49,7 +49,7 @@ type TypeOps struct {
 	// IDOf extracts the id from an event value of this type passed as any
 	IDOf func(ev any) (int, bool)
 	// SubReplay is SubscribeWithReplay for this type with a handler that calls h
-	SubReplay func(w *World, ctx context.Context, subID string, h func(id int)) error
+	SubReplay func(w *World, ctx context.Context, subID string, h func(id int), opts ...eventbus.SubscribeOption) error
 	// PersistName is the type name events of this type are persisted under
 	PersistName string
 }
@@ -124,8 +124,8 @@ func mkOps[T evC](idx int) *TypeOps {
 			eventbus.PublishContext(w.Bus, ctx, ev)
 		}
 	}
-	o.SubReplay = func(w *World, ctx context.Context, subID string, h func(id int)) error {
-		return eventbus.SubscribeWithReplay(ctx, w.Bus, subID, func(e T) { h(idOf(e)) })
+	o.SubReplay = func(w *World, ctx context.Context, subID string, h func(id int), opts ...eventbus.SubscribeOption) error {
+		return eventbus.SubscribeWithReplay(ctx, w.Bus, subID, func(e T) { h(idOf(e)) }, opts...)
 	}
 	o.PersistName = eventbus.EventType(zero)
 	o.Clear = func(w *World) { eventbus.Clear[T](w.Bus) }
